@@ -125,6 +125,8 @@ def _save(step):
 
 s.save = _save
 n = A["cap"] - int(s.iteration)
+if A.get("final_iteration") is not None and int(s.iteration) >= A["final_iteration"]:
+    n = 0   # restored a finished run: nothing to continue
 log("SOLVE", int(s.iteration), n, round(time.time() - _t0, 3))
 if n > 0:
     res = s.solve(n)
